@@ -79,6 +79,9 @@ def sinks_reached(facts, f, adt_suffix, is_sink, bodies=None, extra_seed=None):
                 continue
             labs = set()
             for o in t[2]:
+                # out-parameters (&mut error lists etc.) are not the data being traversed
+                if o[0] in ("c", "m") and len(o[1]) == 1 and g.locals[o[1][0]].startswith("&mut "):
+                    continue
                 labs |= L.operand_labels(o)
             for l in labs:
                 reached.setdefault(l, []).append((c, t[1].get("l")))
